@@ -60,10 +60,22 @@ def query_strategy(h):
     })
 
 
+def reinit_strategy(h):
+    """Re-initialisation of the same object starts a new history.  Judged for the two types
+    whose `initialize` documents/implements a full reset (constant, fixed); logarithmic and
+    geometric schedules keep their grown spacing / last answer across `initialize` on the
+    unchanged tree, which the statement (one initialize followed by queries) does not cover.
+    Added after the independently seeded change C09-4 (FixedInterrupts keeps its position
+    across re-initialisation) was missed."""
+    if h.KIND not in ("fixed", "constant") or h.calls < 1:
+        return None
+    return st.fixed_dictionaries({"back": st.booleans(), "x": st.floats(0.0, 1.0)})
+
+
 class ScheduleHistory(History):
     """Common driver; subclasses provide construct/model."""
 
-    OPS = {"query": query_strategy}
+    OPS = {"query": query_strategy, "reinit": reinit_strategy}
     KIND = ""
 
     def __init__(self, init):
@@ -74,7 +86,7 @@ class ScheduleHistory(History):
         self.t0 = float(init["t0"])
         self.calls = 0
         self.t_last = self.t0  # last query
-        self.flags = {"exact": False, "catchup": False, "before": False, "inf": False}
+        self.flags = {"exact": False, "catchup": False, "before": False, "inf": False, "reinit": False}
         self.model_init()
         ans = float(self.obj.initialize(self.t0))
         self.first = ans
@@ -121,6 +133,19 @@ class ScheduleHistory(History):
             elif not ans > self.prev:
                 self.fail("answer not strictly later than previous answer", t, ans, "not-increasing")
         self.judge_member(t, ans, initial)
+
+    def op_reinit(self, back, x):
+        t0 = self.t0 if back else (self.t_last + x * self.period() if math.isfinite(self.t_last) else self.t0)
+        self.t0 = float(t0)
+        self.calls = 0
+        self.t_last = self.t0
+        self.prev = None
+        self.model_init()
+        self.flags["reinit"] = True
+        ans = float(self.obj.initialize(self.t0))
+        self.first = ans
+        self.judge(self.t0, ans, initial=True)
+        self.prev = ans
 
     def op_query(self, mode, x, k):
         A = self.prev
